@@ -995,7 +995,11 @@ func minimiseAndVerify(b *build, prop string, vm violationMsg, seed uint64, race
 	// assemble the replay file: plan(s) + what was observed + provenance
 	var pf map[string]any
 	data, _ := os.ReadFile(src)
-	json.Unmarshal(data, &pf)
+	// UseNumber: plans carry 64-bit seeds; float64 would round them and the
+	// replay would be a different run for code that draws random numbers
+	dec := json.NewDecoder(bytes.NewReader(data))
+	dec.UseNumber()
+	dec.Decode(&pf)
 	if pf == nil {
 		pf = map[string]any{}
 	}
